@@ -67,6 +67,15 @@ PROPERTIES['C19'] = {
     'level_note': _DOC_NOTE,
 }
 
+PROPERTIES['C13'] = {
+    'modules': ['harness.c13_numexpr'], 'budget': {'quick': 900, 'thorough': 3300},
+    'level_text': 'Exhaustive solver-driven enumeration of operand shapes x operators x operand kinds x attachment (CrossHair path tree '
+                  'exhausted over the symbolic selectors), each combination executed on the real NumberExpr code and compared with decimal '
+                  'arithmetic, an independent evaluator of the printed text and a re-parse; operands and their documents compared before/after.',
+    'level_note': 'Finite configuration space (15 shapes, 5 scalars, 4 operators, 3 modes, 4 attachments; chains of <= 2); numeric literals are '
+                  'concrete. Trusted: CrossHair path exhaustion, decimal, the 30-line evaluator.',
+}
+
 NOT_APPLICABLE = {
     'C16': 'The property is about the operating system and C io layer behind editor.py (text-mode newline translation, pathlib/glob/'
            'os.unlink/os.makedirs, mtimes): none of it can be executed symbolically by CrossHair or encoded for z3, CrossHair forbids '
